@@ -8,6 +8,7 @@ import lib
 
 PIPELINES = {
     "C01": "p_diff", "C02": "p_diff", "C03": "p_diff",
+    "C04": "p_rules",
 }
 
 
